@@ -437,7 +437,7 @@ func offsetOf(text string, line, col int) int {
 }
 
 func TestSourcePositions(t *testing.T) {
-	rec.Check(t, rec.Scale(1000, 20000), func(t *rapid.T) {
+	rec.Check(t, rec.Scale(700, 20000), func(t *rapid.T) {
 		c, nt := genSrcCase(t)
 		if id := knownShape(c); id != "" {
 			rec.Excluded(id)
